@@ -75,6 +75,12 @@ def expressions(rnd, n_deep):
             for c2 in cmps:
                 out.append({"k": "dy", "op": op, "a": c1, "b": c2})
     out.append({"k": "ad", "adv": "over", "op": "+", "a": {"k": "dy", "op": "+", "a": cmps[0], "b": cmps[1]}})
+    # negation directly over a binary operation of two different variables (and as operand of a further operation)
+    for op in ("-", "+", "*", "%"):
+        for x, y in ((a, b), (b, a)):
+            inner = {"k": "dy", "op": op, "a": x, "b": y}
+            out.append({"k": "mo", "op": "-", "a": inner})
+            out.append({"k": "dy", "op": "+", "a": {"k": "mo", "op": "-", "a": inner}, "b": a})
     deep = []
     while len(deep) < n_deep:
         k = rnd.random()
@@ -88,6 +94,18 @@ def expressions(rnd, n_deep):
         if kgeval.vars_of(e):
             deep.append(e)
     return out + deep
+
+
+def realify(e):
+    """the expression with every integer literal replaced by the real of the same value"""
+    if e["k"] == "lit":
+        v = e["v"]
+        return lit(R(v["v"], 1)) if v["t"] == "i" else e
+    out = dict(e)
+    for key in ("a", "b"):
+        if key in out and isinstance(out[key], dict):
+            out[key] = realify(out[key])
+    return out
 
 
 def subst(e, m):
@@ -264,6 +282,17 @@ def run(tier, seed):
                 except BaseException as ex:   # noqa
                     got = {"t": "fail", "v": type(ex).__name__}
                 res.append(("mirror", None, mtext, got))
+            # ... and the expression with its integer literals written as reals (2 -> 2.0): same value, other kind - code
+            # generated for one must not be served for the other
+            ktext = kgeval.render_ast(realify(e))
+            if ktext != src:
+                try:
+                    got = canon.canon(k(ktext))
+                    if got["t"] == "u":
+                        got = {"t": "fail", "v": "undefined"}
+                except BaseException as ex:   # noqa
+                    got = {"t": "fail", "v": type(ex).__name__}
+                res.append(("literal-kind", None, ktext, got))
             outs[mode] = res
         for (pos, cid, text, gc), (_, _, _, gi) in zip(outs["compiled"], outs["interpreted"]):
             nevals += 1
